@@ -16,7 +16,7 @@ import (
 	"verifharness/internal/sx"
 )
 
-var alphabet = []string{"", ".", "..", "a", "a/b", "a\\b", "...", "..a", "/", "b", "\\a", "a\\", "/a", "\\"}
+var alphabet = []string{"", ".", "..", "a", "a/b", "a\\b", "...", "..a", "/", "b", "\\a", "a\\", "/a", "\\", "x..y"}
 var dirs = [][]string{{}, {"x"}, {"x", "y"}, {"x", "y", "z"}}
 
 func render(comps []string) string { return "/" + strings.Join(comps, "/") }
@@ -107,7 +107,7 @@ func catch(f func()) (panicked bool) {
 func main() {
 	r := rep.Open()
 	defer r.Close()
-	r.Rule = "exhaustive grid: all name lists of length<=4 over {'', '.', '..', a, a/b, a\\b, ..., ..a, /, b, \\a, a\\, /a, \\} x canonical dirs of depth 0..3 for ValidPath/NormalizePath/WalkName; CreateName over dirs x alphabet; ToWalk/path.Clean over all strings of length<=7 over {/ . a \\}; plus random byte-string names. A case is non-trivial when its name list or string is non-empty; distinct by canonical case text."
+	r.Rule = "exhaustive grid: all name lists of length<=4 over {'', '.', '..', a, a/b, a\\b, ..., ..a, /, b, \\a, a\\, /a, \\, x..y} x canonical dirs of depth 0..3 for ValidPath/NormalizePath/WalkName; CreateName over dirs x alphabet; ToWalk/path.Clean over all strings of length<=7 over {/ . a \\}; plus random byte-string names. A case is non-trivial when its name list or string is non-empty; distinct by canonical case text."
 	rng := prng.New(r.Seed)
 
 	var lists [][]string
@@ -166,8 +166,16 @@ func main() {
 		if want := oracleValid(ns); want != v {
 			r.Fail("path.ValidPath", fmt.Sprintf("ValidPath(%q) = %d, the property demands %d", ns, v, want), c, nil)
 		}
-		// NormalizePath
+		// NormalizePath (documented as functional: it must not write into its argument)
+		keep := append([]string{}, ns...)
 		steps, k := p9p.NormalizePath(ns)
+		for i := range keep {
+			if ns[i] != keep[i] {
+				r.Fail("path.NormalizePath.argument-modified", fmt.Sprintf("NormalizePath overwrote its argument: %q became %q", keep, ns), sx.L(sx.Sym("norm"), sx.Strs(keep)), nil)
+				copy(ns, keep)
+				break
+			}
+		}
 		c = sx.L(sx.Sym("norm"), sx.Strs(ns))
 		r.Case(c, sx.L(sx.Strs(steps), sx.I(int64(k))), fmt.Sprintf("norm:%v", k >= 0), nt)
 		if k >= 0 {
